@@ -157,6 +157,16 @@ class Evaluator:
     def __init__(self, env, logic="casadi", functions=None, tie=1e-6, edge=1e-3):
         self.env, self.logic, self.functions = env, logic, functions or {}
         self.tie, self.edge = tie, edge
+        self.maxabs = 1.0     # largest intermediate magnitude seen: scales the comparison tolerance
+
+    def _note(self, v):
+        try:
+            m = float(np.max(np.abs(np.asarray(v, dtype=float)))) if np.size(v) else 0.0
+            if m > self.maxabs and math.isfinite(m):
+                self.maxabs = m
+        except (TypeError, ValueError):
+            pass
+        return v
 
     def truth(self, v):
         if self.logic == "bool":
@@ -202,9 +212,9 @@ class Evaluator:
         if t == "arr":
             return np.array([self.ev(a) for a in e[1]], dtype=float)
         if t == "call":
-            return self.call(e[1], [self.ev(a) for a in e[2]], e)
+            return self._note(self.call(e[1], [self.ev(a) for a in e[2]], e))
         if t == "bin":
-            return self.binop(e[1], self.ev(e[2]), self.ev(e[3]))
+            return self._note(self.binop(e[1], self.ev(e[2]), self.ev(e[3])))
         raise ValueError(t)
 
     def der(self, a):
@@ -351,6 +361,9 @@ class Evaluator:
             if f in ("asin", "acos"):
                 if np.any(np.abs(np.asarray(args[0], dtype=float)) > 1 - self.edge):
                     raise Undefined("asin domain")
+            if f in ("sin", "cos", "tan"):
+                if np.any(np.abs(np.asarray(args[0], dtype=float)) > 1e3):
+                    raise Undefined("trig of large argument")
             if f == "tan":
                 if np.any(np.abs(np.cos(args[0])) < 1e-2):
                     raise Undefined("tan pole")
